@@ -151,12 +151,18 @@ def run_alloc(ctx, case):
     a = driver.Allocator(sched)
     m = ctx.model("alloc", "allocate", {"schedule": [{"clients": e["clients"], "tasks": e["tasks"]} for e in case["schedule"]]})["r"]
     allocs = a.allocations
+    try:
+        tpj = [sorted(int(t.name[1:]) for t in s) for s in a.tasks_per_joinpoint]
+    except Exception as ex:  # the implementation raises on a legal schedule
+        ctx.fail("impl-exception", "Allocator.tasks_per_joinpoint raises on a legal schedule", "a list of task sets", repr(ex))
+        ctx.diff("tasks_per_joinpoint", m["tasks_per_joinpoint"], repr(ex))
+        tpj = None
     impl = {
         "clients": a.clients,
         "rows": canon_matrix(allocs),
         "steps": len(a.join_points) - 1,
         "join_points": len(a.join_points),
-        "tasks_per_joinpoint": [sorted(int(t.name[1:]) for t in s) for s in a.tasks_per_joinpoint],
+        "tasks_per_joinpoint": tpj,
     }
     mm = dict(m)
     pinned = mm.pop("tasks_per_joinpoint_pinned")
@@ -200,14 +206,17 @@ def run_alloc(ctx, case):
     steps = impl["steps"]
     if steps != len(case["schedule"]):
         ctx.fail(cls + ":steps", "number of steps differs from number of schedule elements", len(case["schedule"]), steps)
-    if len(impl["tasks_per_joinpoint"]) != steps:
+    if tpj is None:
+        pass
+    elif len(impl["tasks_per_joinpoint"]) != steps:
         ctx.fail(cls + ":progress-entries", "tasks_per_joinpoint does not have one entry per step", steps, len(impl["tasks_per_joinpoint"]))
     else:
         exp = [sorted(t["id"] for t in e["tasks"] if t["clients"] > 0) for e in case["schedule"]]
         if impl["tasks_per_joinpoint"] != exp:
             ctx.fail(cls + ":progress-content", "progress entry of a step is not the task set of that element", exp, impl["tasks_per_joinpoint"])
     try:
-        walk_progress(a.tasks_per_joinpoint, steps)
+        if tpj is not None:
+            walk_progress(a.tasks_per_joinpoint, steps)
     except IndexError as ex:
         ctx.fail(cls + ":progress-walk", "Driver.update_progress_message runs past tasks_per_join_point", "no exception", repr(ex))
     ctx.sig([sorted(set(ctx_tags(case, impl))), min(len(case["schedule"]), 3), min(impl["clients"], 3), cls],
